@@ -393,7 +393,7 @@ def write_evidence(prop, tier, seed, results, units, undecided, vcount, knownhit
         "violations": vcount,
     }
     # runs against a scratch tree (VERIF_REPO set: seeded changes, mutations) must not overwrite the evidence of /repo
-    edir = os.path.join(VERIF, "evidence") if REPO == "/repo" else os.path.join(VERIF, ".work", "evidence-scratch")
+    edir = os.path.join(VERIF, "evidence") if REPO == "/repo" and not os.environ.get("VERIF_EVIDENCE_SCRATCH") else os.path.join(VERIF, ".work", "evidence-scratch")
     os.makedirs(edir, exist_ok=True)
     json.dump(ev, open(os.path.join(edir, f"{prop}.json"), "w"), indent=1)
 
